@@ -22,7 +22,7 @@ pub fn expr(rng: &mut Rng, count: u64, mutate: bool, emit: Emit) {
 /// program text as a single atom: whitespace and parentheses are replaced so that the S-expression
 /// reader of the driver skips it (it is there for the human reading a replay)
 pub fn sexp_escape(text: &str) -> String {
-    text.chars().map(|c| match c { ' ' | '\n' | '\t' | '\r' => '␣', '(' => '⦅', ')' => '⦆', c => c }).collect()
+    text.chars().map(|c| match c { ' ' | '\t' | '\r' => '␣', '\n' => '⏎', '(' => '⦅', ')' => '⦆', c => c }).collect()
 }
 
 pub fn profile_of(name: &str) -> Profile {
@@ -120,5 +120,154 @@ pub fn trace(rng: &mut Rng, count: u64, emit: Emit) {
         for (a, b) in &mem { write!(req, " ({} {})", a, b).unwrap(); }
         req.push_str("))");
         emit(req, line);
+    }
+}
+
+/// S-YO: yas listings, valid and malformed, through the real loader
+pub fn yo(rng: &mut Rng, count: u64, malformed: bool, emit: Emit) {
+    for _ in 0..count {
+        let mut file: Vec<u8> = Vec::new();
+        let nlines = rng.below(8);
+        for _ in 0..nlines {
+            let eol: &[u8] = if rng.chance(1, 5) { b"\r\n" } else { b"\n" };
+            match rng.below(8) {
+                0 => file.extend_from_slice(b"                            | # a comment"),
+                1 => file.extend_from_slice(b""),
+                2 => file.extend_from_slice(b"  .pos 0x100 no bar here"),
+                3 => file.extend_from_slice(format!("0x{:03x}:                      | label:", rng.below(4096)).as_bytes()),
+                _ => {
+                    let addr = match rng.below(4) { 0 => 0, 1 => 0xff6 + rng.below(10), _ => rng.below(4096) };
+                    let n = rng.below(11) as usize;
+                    let upper = rng.chance(1, 4);
+                    let mut hex = String::new();
+                    for _ in 0..n { let b = rng.below(256); if upper { hex.push_str(&format!("{:02X}", b)); } else { hex.push_str(&format!("{:02x}", b)); } }
+                    let line = if upper { format!("0x{:03X}: {:<20} |   insn", addr, hex) } else { format!("0x{:03x}: {:<20} |   insn", addr, hex) };
+                    file.extend_from_slice(line.as_bytes());
+                }
+            }
+            file.extend_from_slice(eol);
+        }
+        if rng.chance(1, 6) && file.ends_with(b"\n") { file.pop(); }
+        if malformed && !file.is_empty() {
+            // damage the file: one or two byte-level edits
+            for _ in 0..rng.range(1, 2) {
+                let pos = rng.below(file.len() as u64) as usize;
+                match rng.below(9) {
+                    0 => { file.remove(pos); }
+                    1 => { file.insert(pos, b' '); }
+                    2 => { file[pos] = *rng.pick(&[b'+', b'-', b'g', b'|', b':', b'x', b' ', b'0']); }
+                    3 => { file[pos] = 0xC3; if pos + 1 < file.len() { file[pos + 1] = 0xA9; } }      // e-acute
+                    4 => { file[pos] = 0xFF; }                                                       // invalid UTF-8
+                    5 => { file.truncate(pos); }
+                    6 => { let e = "\u{20ac}".as_bytes(); for (k, b) in e.iter().enumerate() { if pos + k < file.len() { file[pos + k] = *b; } } }
+                    7 => { file.insert(pos, b'\n'); }
+                    _ => { file.insert(pos, *rng.pick(&[b'a', b'F', b'9'])); }
+                }
+                if file.is_empty() { break; }
+            }
+        }
+        let f2 = file.clone();
+        let res = std::panic::catch_unwind(move || hclrs::verif_hooks::load_y86(&f2));
+        let result = match res {
+            Err(_) => String::from("PANIC"),
+            Ok(Ok(bytes)) => format!("ok {}", bytes.iter().map(|(a, b)| format!("{}:{}", a, b)).collect::<Vec<_>>().join(",")),
+            Ok(Err(e)) => format!("err {}", hclrs::verif_hooks::error_summary(&e).first().map(|d| d.kind).unwrap_or("?")),
+        };
+        emit(format!("(yo {})", file.iter().map(|b| b.to_string()).collect::<Vec<_>>().join(" ")), result);
+    }
+}
+
+/// S-DUMP: arbitrary machine states rendered by the real `dump_y86_str`
+pub fn dump(rng: &mut Rng, count: u64, emit: Emit) {
+    use std::fmt::Write;
+    use crate::gen::{interesting_value, W};
+    for _ in 0..count {
+        // a program that only declares banks (with names of various lengths) and drives their inputs with constants
+        let mut text = String::new();
+        let letters = ["pP", "fF", "dD", "eE", "mM", "wW", "xY", "aB", "zQ", "\u{e9}\u{c9}", "k\u{1e00}"];
+        let mut chosen: Vec<&str> = letters.to_vec();
+        rng.shuffle(&mut chosen);
+        let nb = rng.below(7) as usize;
+        for b in 0..nb {
+            let name = chosen[b];
+            let cs: Vec<char> = name.chars().collect();
+            let nregs = rng.range(1, 12);
+            let mut decl = format!("register {} {{", name);
+            let mut assigns = String::new();
+            for r in 0..nregs {
+                let w = if rng.chance(1, 10) { 0 } else { rng.range(1, 128) };
+                let len = match rng.below(5) { 0 => 1, 1 => rng.range(20, 60), _ => rng.range(2, 9) } as usize;
+                let mut rname = format!("r{}", r);
+                while rname.len() < len { rname.push(*rng.pick(&['a', 'Z', '_', '9', 'q'])); }
+                if rng.chance(1, 15) { rname.push('\u{e9}'); }
+                write!(decl, " {}:{} = 0;", rname, w).unwrap();
+                write!(assigns, "{}_{} = 0;\n", cs[0], rname).unwrap();
+            }
+            decl.push_str(" }\n");
+            text.push_str(&decl);
+            text.push_str(&assigns);
+        }
+        text.push_str("pc = 0; Stat = STAT_AOK;\n");
+        let full = format!("{}{}", hclrs::verif_hooks::y86_preamble(), text);
+        let sexp = match hclrs::verif_hooks::parse_statements(&full) { Ok(s) => s, Err(_) => { emit(format!("(noparse {})", sexp_escape(&text)), String::from("noparse")); continue; } };
+        let contents = hclrs::FileContents::new_from_data(hclrs::verif_hooks::y86_preamble(), &text, "t.hcl");
+        let program = match hclrs::parse_y86_hcl(&contents) { Ok(p) => p, Err(_) => { emit(format!("(rejected {})", sexp_escape(&text)), String::from("rejected")); continue; } };
+        let banks = program.verif_banks();
+        let mut rp = hclrs::RunningProgram::new_y86(program);
+        let mut req = format!("(dump {} {}", crate::progrun::flags_sexp(), crate::progrun::cls_sexp(&text));
+        // registers
+        req.push_str(" (regs");
+        for i in 0..16 {
+            let v = match rng.below(5) { 0 => 0, 1 => u64::MAX, 2 => rng.below(65536), _ => rng.next() };
+            let v = if i == 15 { 0 } else { v };
+            rp.verif_set_register(i, v);
+            write!(req, " {}", v).unwrap();
+        }
+        req.push(')');
+        // memory
+        let mut mem: Vec<(u64, u8)> = Vec::new();
+        let nclusters = rng.below(5);
+        for _ in 0..nclusters {
+            let base = match rng.below(5) { 0 => rng.below(48), 1 => u64::MAX - rng.below(40), 2 => rng.below(1 << 20), _ => rng.next() };
+            let n = rng.range(1, 20);
+            for j in 0..n { if rng.chance(3, 4) { mem.push((base.wrapping_add(j), rng.below(256) as u8)); } }
+        }
+        mem.sort(); mem.dedup_by_key(|x| x.0);
+        rp.verif_set_memory(&mem);
+        req.push_str(" (mem");
+        for (a, b) in &mem { write!(req, " ({} {})", a, b).unwrap(); }
+        req.push(')');
+        // bank values and control signals
+        req.push_str(" (vals");
+        for (_label, signals, _defaults, stall, bubble) in &banks {
+            for (_i, o, w) in signals {
+                let bits = interesting_value(rng, match w { Some(n) => W::Bits(*n), None => W::Unl });
+                rp.verif_set_value(o, bits, *w);
+                write!(req, " ({} {} {})", o, bits, crate::progrun::width_str(*w)).unwrap();
+            }
+            for ctl in [stall, bubble] {
+                let bit = if rng.chance(1, 3) { 1 } else { 0 };
+                rp.verif_set_value(ctl, bit, Some(1));
+                write!(req, " ({} {} 1)", ctl, bit).unwrap();
+            }
+        }
+        let stat = rng.below(8) as u128;
+        if rng.chance(4, 5) { rp.verif_set_value("Stat", stat, Some(3)); write!(req, " (Stat {} 3)", stat).unwrap(); }
+        req.push(')');
+        let cycle = match rng.below(4) { 0 => 0, 1 => rng.below(20), 2 => rng.below(100000), _ => 9999 } as u32;
+        let timeout = match rng.below(4) { 0 => cycle, 1 => cycle + 1, 2 => 9999, _ => rng.below(30) as u32 };
+        rp.verif_set_cycle(cycle);
+        let mut opts = hclrs::RunOptions::default();
+        opts.set_timeout(timeout);
+        let test_mode = rng.chance(1, 5);
+        if test_mode { opts.set_test(); }
+        rp.set_options(opts);
+        let result = match std::panic::catch_unwind(std::panic::AssertUnwindSafe(|| rp.dump_y86_str())) {
+            Ok(s) => s,
+            Err(_) => String::from("PANIC"),
+        };
+        let esc: String = sexp_escape(&result).replace("\u{2423}\u{2423}", "\u{2423}\u{2423}");
+        write!(req, " (cycle {}) (timeout {}) (showbanks {}) (impltext {}) (stmts {}))", cycle, timeout, if test_mode { 0 } else { 1 }, esc, sexp).unwrap();
+        emit(req, result);
     }
 }
